@@ -348,6 +348,27 @@ func genXCase(rt *rapid.T, cfg dsl.GenCfg, nmsgs int, vc dsl.ValCfg, suffixes bo
 	p := dsl.GenProgram(rt, cfg)
 	k := xCase{Prog: p, Langs: append([]string{}, xlang.Codecs...)}
 	root := p.RootPacket()
+	huge := rapid.IntRange(0, 3).Draw(rt, "huge_values") == 0
+	if huge {
+		// the values need a home: a dynamic string and a list of one-byte numbers at the top level
+		// of the root packet, and prefix types that can count beyond 32767 (mostly the two-byte one)
+		hasDyn, hasList := false, false
+		for _, f := range root.Fields {
+			hasDyn = hasDyn || (f.Kind == dsl.KDyn && !f.Repeat)
+			hasList = hasList || (f.Kind == dsl.KScalar && f.Repeat && dsl.ScalarSize(f.Type) == 1 && f.Type != "char")
+		}
+		if !hasDyn && !cfg.Avoid["dyn"] && root.FieldByName("HugeText") == nil {
+			root.Fields = append(root.Fields, &dsl.Field{Kind: dsl.KDyn, Name: "HugeText"})
+		}
+		if !hasList && !cfg.Avoid["repeat"] && !cfg.Avoid["repeat:scalar"] && root.FieldByName("HugeBytes") == nil {
+			root.Fields = append(root.Fields, &dsl.Field{Kind: dsl.KScalar, Type: "u8", Name: "HugeBytes", Repeat: true})
+		}
+		for _, o := range []*string{&p.Opts.StrPrefix, &p.Opts.ArrPrefix} {
+			if *o != "" && *o != "u16" && rapid.IntRange(0, 2).Draw(rt, "huge_prefix") > 0 {
+				*o = rapid.SampledFrom([]string{"", "u16"}).Draw(rt, "huge_prefix_type")
+			}
+		}
+	}
 	for i := 0; i < nmsgs; i++ {
 		pk := root
 		if i%3 == 2 && len(p.Packets) > 1 {
@@ -357,6 +378,9 @@ func genXCase(rt *rapid.T, cfg dsl.GenCfg, nmsgs int, vc dsl.ValCfg, suffixes bo
 		if i > 0 {
 			vci.KeyPick = i // message 0 draws its key, the others walk through the table from the last key backwards
 			vci.KeyPick = 1000 - i
+		}
+		if i == 1 && huge {
+			vci.Huge = true
 		}
 		m := xMsg{Packet: pk.Name, Val: dsl.GenMessage(rt, p, pk, vci, fmt.Sprintf("m%d", i))}
 		if !lenFits(p, pk, m.Val) {
